@@ -875,16 +875,17 @@ def run_shard(tier, seed, shard, nshards, res):
         combos = [(a, b, c) for a in range(len(SHARED_OPS)) for b in range(len(SHARED_OPS)) for c in range(len(SHARED_OPS))]
         # quick tier: four designated programs (a write, then a call that reads the object's counters | the same kind of
         # call in the other thread), each explored exhaustively to the bound by four workers that share its plans, plus
-        # one program from the rotation, sampled; thorough tier: twenty more programs per worker, exhaustively
-        n_d = 2 if tier == 'quick' else 21
+        # one program from the rotation, sampled; thorough tier (64 workers): the same plus two programs per worker, with function entries as further change
+        # points, 2 500 plans each
+        n_d = 2 if tier == 'quick' else 3
         for i in range(n_d):
             rng = common.rng_for(seed, 'c05d', shard, i)
             a, b, c = combos[(seed * 7919 + (shard * n_d + i) * 131) % len(combos)]
-            part, budget = (0, 1), (120 if tier == 'quick' else 4000)
+            part, budget = (0, 1), (120 if tier == 'quick' else 2500)
             init = {} if rng.random() < 0.5 else {'a': 'I0' * 40, 'n': 5}
             if i == 0:
                 a, b, c = [(0, 6, 6), (3, 6, 6), (4, 6, 8), (2, 6, 9)][shard % 4]
-                part, budget = (shard // 4 % 4, 4), 10**9
+                part, budget = (shard // 4 % 4, 4), (10**9 if tier == 'quick' else 2500)
                 init = {} if (seed + shard) % 2 == 0 else {'a': 'I0' * 40, 'n': 5}
                 rng = common.rng_for(seed, 'c05d', shard % 4, i)
             prog = [[SHARED_OPS[a], SHARED_OPS[b]], [SHARED_OPS[c]]]
